@@ -113,6 +113,9 @@ def run(ctx):
     if c.get("rr_accepted_with_unvalidated_startrow_endrow", 0):
         ctx.note("%d range results with manipulated RowProof.StartRow/EndRow verify (fields not validated upstream; "
                  "see level_note)" % c["rr_accepted_with_unvalidated_startrow_endrow"])
+    if c.get("included_true_with_error", 0):
+        ctx.note("Included returned (true, error) for %d wrong proofs of a present blob (read as 'does not answer true', "
+                 "DESIGN.md §11; the package's own test demands this shape)" % c["included_true_with_error"])
     lenient = {k[len("lenient_"):]: v for k, v in c.items() if k.startswith("lenient_")}
     if lenient:
         ctx.note("real verifier accepts, model rejects, claim true (harmless): %s" % lenient)
